@@ -187,7 +187,10 @@ func (m *Machine) lenOf(v Value) Value {
 			return f.BVC(64, 0)
 		}
 		if m.procMode {
-			unsupported("len(chan) inside a goroutine")
+			if m.chanLenFn == nil {
+				unsupported("len(chan) inside a goroutine")
+			}
+			return m.chanLenFn(x.C)
 		}
 		return f.BVC(64, uint64(len(x.C.Buf)))
 	case *PtrV:
@@ -444,6 +447,38 @@ func (m *Machine) model(fn *ssa.Function, args []Value, res ssa.Value) *modelRes
 	case "verif.local/vrt.Assert":
 		m.doAssert(constStr(args[0]), args[1].(*term.T))
 		return &modelRes{}
+	case "verif.local/vrt.Arena":
+		if m.procMode {
+			unsupported("vrt.Arena inside a goroutine")
+		}
+		t := fn.TypeArgs()[0]
+		n := m.constInt(args[0])
+		ar := &Arena{Name: fmt.Sprintf("ar%d", len(m.W.Arenas)), T: t, Fn: constStr(args[1])}
+		for i := 0; i < n; i++ {
+			ar.Slots = append(ar.Slots, m.newObject(t, m.zero(t), fmt.Sprintf("%s.slot%d", ar.Name, i)))
+		}
+		m.W.Arenas = append(m.W.Arenas, ar)
+		return &modelRes{}
+	case "(*sync.Pool).Put":
+		return &modelRes{}
+	case "(*sync.Pool).Get":
+		// modelled as "always fresh": the pool's New function is called (reuse of a
+		// recycled node is outside the claim)
+		pp := args[0].(*PtrV)
+		pool := m.load(pp).(*StructV)
+		st := under(pp.Obj.T)
+		_ = st
+		var newFn *FuncV
+		pt := under(getTypeAt(pp.Obj.T, pp.Path)).(*types.Struct)
+		for i := 0; i < pt.NumFields(); i++ {
+			if pt.Field(i).Name() == "New" {
+				newFn, _ = pool.F[i].(*FuncV)
+			}
+		}
+		if newFn == nil {
+			return &modelRes{v: &IfaceV{}}
+		}
+		return &modelRes{v: m.callAndRun(newFn, nil)}
 	case "verif.local/vrt.Pace":
 		return &modelRes{}
 	case "verif.local/vrt.Cover":
@@ -509,7 +544,7 @@ func (m *Machine) model(fn *ssa.Function, args []Value, res ssa.Value) *modelRes
 		return &modelRes{}
 	case "verif.local/vrt.LibExited", "verif.local/vrt.AllLibExited", "verif.local/vrt.Closed", "verif.local/vrt.ChanLen", "verif.local/vrt.Now",
 		"verif.local/vrt.Exited", "verif.local/vrt.Cancelled", "verif.local/vrt.Daemon", "verif.local/vrt.TrySend",
-		"verif.local/vrt.Sleep", "verif.local/vrt.Arena", "verif.local/vrt.Pending":
+		"verif.local/vrt.Sleep", "verif.local/vrt.Pending":
 		if m.bmcHooks == nil {
 			unsupported("%s outside BMC", name)
 		}
@@ -606,11 +641,6 @@ func (m *Machine) model(fn *ssa.Function, args []Value, res ssa.Value) *modelRes
 			unsupported("%s outside BMC", name)
 		}
 		return m.bmcHooks.intrinsic(m, name, fn, args)
-	case "(*sync.Pool).Get", "(*sync.Pool).Put":
-		if m.bmcHooks == nil {
-			unsupported("%s outside BMC", name)
-		}
-		return m.bmcHooks.intrinsic(m, name, fn, args)
 	case "time.Sleep", "time.After":
 		if m.bmcHooks == nil {
 			unsupported("%s outside BMC", name)
@@ -649,6 +679,7 @@ func (m *Machine) fmtModel(args []Value) Value {
 }
 
 func (m *Machine) logChoice(name string, v int) {
+	m.choiceSeq = append(m.choiceSeq, [2]string{name, fmt.Sprint(v)})
 	if m.choiceLog == nil {
 		m.choiceLog = map[string]string{}
 	}
